@@ -71,6 +71,13 @@ def run(ck):
                     ("Invariant Pure is violated" in r_sh.out, r_ok.distinct, r_ok.ok))
 
     items = [{"id": i, "kind": k, "text": t} for i, k, t in ITEMS]
+    # --replay: a sequential interference is re-run with exactly its order of items (taken from the replay file); a race or a
+    # divergence under concurrency is not reproducible by construction: the concurrent sub-check alone is run again
+    rp = json.load(open(ck.args.replay)) if ck.args.replay else None
+    seq_only = bool(rp and rp.get("kind") == "interference" and rp.get("order_items"))
+    conc_only = bool(rp and not seq_only)
+    if seq_only:
+        items = rp["order_items"]
     vp.write_ndjson(os.path.join(ck.work, "items.ndjson"), items)
     # isolated baselines: each item alone in a fresh process
     base = {}
@@ -80,23 +87,30 @@ def run(ck):
         base[it["id"]] = m.group(2)
     # sequential processing, all orders of up to 3 (4) items of a sub-pool and rotations of the whole pool
     idx = list(range(len(items)))
-    orders = [list(p) for n in (2, 3) for p in itertools.permutations(idx[:6] if quick else idx[:8], n)]
-    orders += [list(p) for p in itertools.permutations(idx, 2) if list(p) not in orders]          # every ordered pair of the whole pool
-    orders += [idx[i:] + idx[:i] for i in range(len(idx))] + [idx[::-1]]
-    if not quick:
-        orders += [list(p) for p in itertools.permutations(idx[6:], 4)]
+    if seq_only:
+        orders = [idx]
+    elif conc_only:
+        orders = []
+    else:
+        orders = [list(p) for n in (2, 3) for p in itertools.permutations(idx[:6] if quick else idx[:8], n)]
+        orders += [list(p) for p in itertools.permutations(idx, 2) if list(p) not in orders]          # every ordered pair of the whole pool
+        orders += [idx[i:] + idx[:i] for i in range(len(idx))] + [idx[::-1]]
+        if not quick:
+            orders += [list(p) for p in itertools.permutations(idx[6:], 4)]
     vp.write_ndjson(os.path.join(ck.work, "orders.ndjson"), orders)
     ck.run_harness(["purity-seq", "-in", "items.ndjson", "-orders", "orders.ndjson", "-out", "seq.ndjson"], timeout=1800)
     recs = vp.read_ndjson(os.path.join(ck.work, "seq.ndjson"))
     # concurrent processing under the race detector
-    race = ck.harness(extra_flags=("-race",), name="harness-race")
-    env = dict(os.environ, GORACE="halt_on_error=0 history_size=3")
-    p = subprocess.run([race, "purity-conc", "-in", "items.ndjson", "-out", "conc.ndjson", "-n", "8", "-iters", "12" if quick else "60"],
-                       cwd=ck.work, stdout=subprocess.PIPE, stderr=subprocess.PIPE, text=True, timeout=2400, env=env)
-    if not os.path.exists(os.path.join(ck.work, "conc.ndjson")):
-        raise vp.Infra("concurrent run failed: " + p.stderr[-2000:])
-    conc = vp.read_ndjson(os.path.join(ck.work, "conc.ndjson"))
-    sites = race_reports(p.stderr)
+    conc, sites = [], []
+    if not seq_only:
+        race = ck.harness(extra_flags=("-race",), name="harness-race")
+        env = dict(os.environ, GORACE="halt_on_error=0 history_size=3")
+        p = subprocess.run([race, "purity-conc", "-in", "items.ndjson", "-out", "conc.ndjson", "-n", "8", "-iters", "12" if quick else "60"],
+                           cwd=ck.work, stdout=subprocess.PIPE, stderr=subprocess.PIPE, text=True, timeout=2400, env=env)
+        if not os.path.exists(os.path.join(ck.work, "conc.ndjson")):
+            raise vp.Infra("concurrent run failed: " + p.stderr[-2000:])
+        conc = vp.read_ndjson(os.path.join(ck.work, "conc.ndjson"))
+        sites = race_reports(p.stderr)
     recs += conc
     for r in recs:
         r["ref"] = base[r["base"]]
@@ -133,7 +147,11 @@ def run(ck):
         if is_conc and sites and not emerge_sites and all(any(re.search(f["match"]["site"], s) for f in ck.findings if f.get("kind") == "callsite") for s in other_sites):
             if ck.known("DEP-RACES-RESULT", what):
                 continue
-        ck.violation(what, {"property": "C17", "kind": "interference", "base": d["base"], "variant": d["variant"]})
+        rec = {"property": "C17", "kind": "interference", "base": d["base"], "variant": d["variant"]}
+        m = re.match(r"order \[([0-9 ]+)\]", d["variant"])
+        if m and not is_conc:
+            rec["order_items"] = [items[int(k)] for k in m.group(1).split()]
+        ck.violation(what, rec)
     for x in recs[:: max(1, len(recs) // 8)]:
         ck.sample({"item": x["base"], "run": x["variant"], "digest": x["hash"], "isolated": x["ref"]})
     ck.assumptions += ["the race detector is the observation channel for unsynchronised access; schedules are those the Go scheduler produced in this run",
